@@ -172,7 +172,8 @@ pub fn matrix(expression: Expression) -> Expression {
                 }
             }
 
-            if matrix {
+            // NOTE: Every column needs a one character key, and `char` has a hole from 0xD800
+            if matrix && fields.len() <= 0xD800 {
                 let mut columns: Vec<(String, u32)> = fields.into_iter().collect();
                 columns.sort_by(|x, y| x.1.cmp(&y.1));
                 let columns: Vec<String> = columns.into_iter().map(|(c, _)| c).collect();
